@@ -114,6 +114,49 @@ theorem tree_spans_in_source (src : Str) (d : Document) (h : parseDocument src =
   · cases h
   · exact parseTokens_tree h
 
+/-- non-vacuity: a document with multi-byte characters in a line comment, a doc comment, a block
+comment and string literals *before* the nodes -/
+def sample : Str :=
+  "// é\n/// dé\npackage a:b;\n/* ü */ import x as \"ñ\": func();\nlet y = new a:b { \"é\": x, ... }.z[\"ö\"];".toList
+
+/-- … is accepted by the model (two statements, one doc comment on the package directive) … -/
+theorem sample_parses : ∃ d, parseDocument sample = .ok d ∧ d.statements.length = 2 ∧ d.docs.length = 1 := by
+  have h : (match parseDocument sample with
+      | .ok d => d.statements.length == 2 && d.docs.length == 1
+      | .error _ => false) = true := by decide +kernel
+  generalize parseDocument sample = r at h ⊢
+  cases r with
+  | error e => cases h
+  | ok d => exact ⟨d, rfl, by simpa using h⟩
+
+/-- … so the theorem says something about it -/
+example : ∃ d, parseDocument sample = .ok d ∧ d.spansIn sample = true := by
+  obtain ⟨d, h, _⟩ := sample_parses
+  exact ⟨d, h, tree_spans_in_source _ _ h⟩
+
+/-- spans are byte positions: after `/* é */` (7 characters, 8 bytes) and `package a:b;` the expression
+`x["ö"]` is characters 25‥30 but bytes 26‥32 -/
+example : (match parseDocument "/* é */package a:b;let y=x[\"ö\"];".toList with
+    | .ok d => d.statements.map (fun s => match s with
+        | Statement.Let l => l.expr.span
+        | _ => ⟨0, 0⟩) == [⟨26, 7⟩]
+    | .error _ => false) = true := by decide +kernel
+
+/-- the predicate has teeth: a span that is shifted by one byte, that splits a character, or that
+leaves the source is rejected -/
+example :
+    Ident.spansIn "é x".toList ⟨"x".toList, false, ⟨3, 1⟩⟩ = true ∧
+    Ident.spansIn "é x".toList ⟨"x".toList, false, ⟨2, 1⟩⟩ = false ∧
+    Ident.spansIn "é x".toList ⟨"x".toList, false, ⟨1, 3⟩⟩ = false ∧
+    Ident.spansIn "é x".toList ⟨"x".toList, false, ⟨3, 2⟩⟩ = false ∧
+    Ident.spansIn "é %x".toList ⟨"x".toList, true, ⟨3, 2⟩⟩ = true ∧
+    StringLit.spansIn "\"ñ\"".toList ⟨"ñ".toList, ⟨0, 4⟩⟩ = true ∧
+    StringLit.spansIn "\"ñ\"".toList ⟨"ñ".toList, ⟨1, 2⟩⟩ = false ∧
+    Ty.spansIn "é u8".toList (.U8 ⟨3, 2⟩) = true ∧ Ty.spansIn "é u8".toList (.U8 ⟨1, 2⟩) = false ∧
+    DocComment.spansIn "/// é\nx".toList ⟨"é".toList, ⟨0, 6⟩⟩ = true ∧
+    DocComment.spansIn "/// é\nx".toList ⟨"é".toList, ⟨0, 5⟩⟩ = false := by
+  decide +kernel
+
 /-! ### per node family (any reachable lexer state) -/
 
 /-- the lexer state `Document::parse` starts from is reachable (`TInv` = `Inv` + doc comments of the
